@@ -185,7 +185,7 @@ def final_env(s, penv):
 
 def check_frame(eng, s: State, st0: State, c, penv, fn):
     """Every heap write to an object that existed on entry must be covered by `modifies`."""
-    if c.modifies == ["*"]:
+    if "*" in c.modifies:
         return
     allowed = []  # (mapkey, ref)
     spec = st0.entry.fork()
@@ -193,6 +193,8 @@ def check_frame(eng, s: State, st0: State, c, penv, fn):
     spec.spec_mode = 1
     for text in c.modifies:
         t = text.strip()
+        if t == "*":
+            continue
         content = None
         if t.endswith("[]"):
             content, t = "list", t[:-2]
